@@ -1617,6 +1617,7 @@ func (r *Run) load(st *State, fr *Frame, av Val, t types.Type, in ssa.Instructio
 			}
 			return v
 		case AElem:
+			r.backingAccessCheck(st, fr, a.Slice, in)
 			return r.elemVal(st, a.Slice.at(a.Idx), a.Slice.ElemT, t)
 		case AGlobal:
 			return r.loadGlobal(st, a.Global)
